@@ -7,8 +7,10 @@
 #include "common.hpp"
 #include "engines.hpp"
 #include "mcmodel.hpp"
+#include "mpienv.hpp"
 
 #include "hep/mc.hpp"
+#include "hep/mc-mpi.hpp"
 
 #include <algorithm>
 #include <cmath>
@@ -322,6 +324,50 @@ static void real_runs(report& r, bool thorough)
     vf::script_engine::salt() = 0;
 }
 
+// the same chain on mpi_multi_channel under the MPI shim: the weights of iteration k+1 must follow from the
+// *reduced* adjustment data recorded in result k, on every rank
+template <typename T>
+static void mpi_runs(report& r)
+{
+    std::string const tn = vf::type_name<T>();
+    for (int world : {2, 3})
+    for (int kind : {0, 1, 2})
+    for (T minw : {T(0), T(0.05L)})
+    {
+        std::string const id = tn + " mpirun world=" + std::to_string(world) + " kind=" + std::to_string(kind) + " min=" + vf::dec(minw);
+        if (!r.want(id)) continue;
+        r.eval();
+        vf::script_engine::table().clear();
+        vf::script_engine::salt() = 88 + kind;
+        T const beta = T(0.5);
+        vf::pl_map<T> map; map.split = {T(0.25), T(0.5), T(0.75)};
+        auto integrand = hep::make_multi_channel_integrand<T>(peak_fn<T>{kind}, 1, map, 1, 3);
+        auto fresh = [&]() { return hep::make_multi_channel_chkpt<T, vf::script_engine>(std::vector<T>{T(1), T(0), T(2)}, minw, beta); };
+        auto chk0 = fresh();
+        std::vector<std::string> texts(world);
+        vf::mpi_env env(world);
+        auto out = env.run([&](int rank) {
+            auto c = hep::mpi_multi_channel(MPI_COMM_WORLD, integrand, std::vector<sz>(5, 31), fresh(), vf::never_stop_mpi());
+            std::ostringstream o; c.serialize(o); texts[rank] = o.str();
+            if (rank == 0) chk0 = c;
+        });
+        if (!out.ok) { r.violate("mpi-run-failed", id, id + ": " + out.what); continue; }
+        for (int k = 1; k < world; ++k) if (texts[k] != texts[0]) { r.violate("mpi-ranks-hold-different-weights", id, id + ": rank " + std::to_string(k) + " returns a different checkpoint than rank 0"); break; }
+        auto const& res = chk0.results();
+        for (sz k = 0; k != res.size(); ++k)
+        {
+            auto const& w = res[k].channel_weights();
+            r.state(); r.transition();
+            check_state(r, w, id, id + " iteration " + std::to_string(k));
+            std::vector<T> const nxt = (k + 1 < res.size()) ? res[k + 1].channel_weights() : chk0.channel_weights();
+            check_transition(r, w, res[k].adjustment_data(), minw, beta, nxt, id);
+            if (nxt[1] != T()) r.violate("disabled-channel-re-enabled", id, id + " iteration " + std::to_string(k) + " -> " + show(nxt));
+        }
+        r.distinct(vf::hash_str(id));
+    }
+    vf::script_engine::salt() = 0;
+}
+
 int main(int argc, char** argv)
 {
     auto const a = vf::parse_args(argc, argv);
@@ -331,8 +377,8 @@ int main(int argc, char** argv)
     int const which = a.nshards == 1 ? -1 : a.shard % 3;
     int const ngroups = a.nshards == 1 ? 1 : a.nshards / 3;
     int const group = a.nshards == 1 ? 0 : a.shard / 3;
-    if ((which == -1 || which == 0) && r.want_prefix("float")) { explore<float>(r, a.thorough(), group, ngroups); if (group == 0) real_runs<float>(r, a.thorough()); }
-    if ((which == -1 || which == 1) && r.want_prefix("double")) { explore<double>(r, a.thorough(), group, ngroups); if (group == 0) real_runs<double>(r, a.thorough()); }
-    if ((which == -1 || which == 2) && r.want_prefix("long double")) { explore<long double>(r, a.thorough(), group, ngroups); if (group == 0) real_runs<long double>(r, a.thorough()); }
+    if ((which == -1 || which == 0) && r.want_prefix("float")) { explore<float>(r, a.thorough(), group, ngroups); if (group == 0) { real_runs<float>(r, a.thorough()); mpi_runs<float>(r); } }
+    if ((which == -1 || which == 1) && r.want_prefix("double")) { explore<double>(r, a.thorough(), group, ngroups); if (group == 0) { real_runs<double>(r, a.thorough()); mpi_runs<double>(r); } }
+    if ((which == -1 || which == 2) && r.want_prefix("long double")) { explore<long double>(r, a.thorough(), group, ngroups); if (group == 0) { real_runs<long double>(r, a.thorough()); mpi_runs<long double>(r); } }
     return r.finish();
 }
